@@ -45,6 +45,7 @@ Counter f_chunk("fault.stream.chunk");
 Counter f_unbuffered("fault.stream.unbuffered");
 Counter f_tinybuf("fault.stream.tinybuf");
 Counter f_bigbuf("fault.stream.buffered");
+Counter p_big_record("probe.record_longer_than_4096_bytes");
 Counter p_named_overlap("probe.two_named_streams_of_one_thread_overlap");
 Counter p_multi_inflight("probe.statements_of_several_threads_in_flight");
 Counter p_below_min("probe.statement_below_compile_time_minimum");
@@ -200,18 +201,34 @@ struct SimFormatter
     }
 };
 
+inline void record_sink(int k, nl::severity_level sev, std::string&& text)
+{
+    yield(YK_SINK);
+    NoFault nf;
+    Stmt* s = cur_stmt();
+    if (s)
+        s->sinks.push_back(Stmt::Snk{ g.seq++, g.tseq[Scheduler::self_id()]++, k, Scheduler::self_id(), static_cast<int>(sev), std::move(text) });
+    else
+        flag("C05/spurious", "sink-without-statement", -1, "sink called outside any statement");
+}
+
 template <int K>
 struct RecSink
 {
     void sink(nl::severity_level sev, const std::string& text)
     {
-        yield(YK_SINK);
         NoFault nf;
-        Stmt* s = cur_stmt();
-        if (s)
-            s->sinks.push_back(Stmt::Snk{ g.seq++, g.tseq[Scheduler::self_id()]++, K, Scheduler::self_id(), static_cast<int>(sev), text });
-        else
-            flag("C05/spurious", "sink-without-statement", -1, "sink called outside any statement");
+        record_sink(K, sev, std::string(text));
+    }
+};
+// member 0 is a "keeping" sink, as a queueing sink would be: it takes the record by value and
+// moves it into its store.  Later members of a sequence must still see the whole record.
+template <>
+struct RecSink<0>
+{
+    void sink(nl::severity_level sev, std::string text)
+    {
+        record_sink(0, sev, std::move(text));
     }
 };
 
@@ -337,6 +354,15 @@ std::string item_string(const Item& it)
     return s;
 }
 
+// a record longer than any usual buffer / PIPE_BUF
+std::string big_string(const Item& it)
+{
+    std::string s(static_cast<size_t>(3000 + (it.val % 8) * 1000), 'x');
+    for (size_t i = 0; i < s.size(); i += 97)
+        s[i] = static_cast<char>('a' + (i / 97 + static_cast<size_t>(it.val)) % 26);
+    return s;
+}
+
 // reference rendering: what `ostream << item` writes
 std::string render(const Item& it)
 {
@@ -345,6 +371,9 @@ std::string render(const Item& it)
     {
     case 's':
         o << item_string(it);
+        break;
+    case 'B':
+        o << big_string(it);
         break;
     case 'k':
         o << LITERALS[it.val & 3];
@@ -404,7 +433,7 @@ std::vector<Item> parse_items(const std::string& s)
         it.val = n;
         if (i < s.size() && s[i] == ',')
             ++i;
-        if (strchr("skhiuldbpcgfx", it.kind))
+        if (strchr("sBkhiuldbpcgfx", it.kind))
             v.push_back(it);
         if (v.size() >= 8)
             break;
@@ -488,6 +517,15 @@ decltype(auto) with_item(int stmt, int k, const Item& it, F&& f)
         {
             NoFault nf;
             v = item_string(it);
+        }
+        return f(v);
+    }
+    case 'B':
+    {
+        std::string v;
+        {
+            NoFault nf;
+            v = big_string(it);
         }
         return f(v);
     }
@@ -772,7 +810,7 @@ bool parse_device(const std::string& d, std::vector<DevRec>& out)
             return false;
         DevRec r;
         std::string sv = d.substr(i + 1, p1 - i - 1), ln = d.substr(p2 + 1, p3 - p2 - 1);
-        if (sv.size() != 1 || !isdigit(static_cast<unsigned char>(sv[0])) || ln.empty() || ln.size() > 4)
+        if (sv.size() != 1 || !isdigit(static_cast<unsigned char>(sv[0])) || ln.empty() || ln.size() > 6)
             return false;
         for (char c : ln)
             if (!isdigit(static_cast<unsigned char>(c)))
@@ -862,6 +900,18 @@ public:
             p.knobs.emplace_back(n == 0 ? "th0" : n == 1 ? "th1" : "th2", static_cast<int64_t>(rng.below(6)));
         // item mix (swarm)
         bool lazy_ok = !rng.chance(1, 5), throw_ok = rng.chance(1, 3), probe_ok = !rng.chance(1, 4);
+        bool big_ok = rng.chance(1, c09 ? 3 : 12);
+        if (big_ok)
+        {
+            // keep long records cheap: no byte-sized buffers or chunks in these runs
+            if (p.knob("chunk", 1) < 64)
+                p.set_knob("chunk", rng.chance(1, 2) ? 64 : 1000);
+            if (p.knob("outbuf", 0) > 0 && p.knob("outbuf", 0) < 64)
+                p.set_knob("outbuf", 64);
+            if (p.knob("errbuf", 0) > 0 && p.knob("errbuf", 0) < 64)
+                p.set_knob("errbuf", 64);
+        }
+        int big_left = 2;
         auto gen_items = [&]() {
             std::string s;
             int n = rng.range(0, 6);
@@ -875,6 +925,11 @@ public:
                     kd = 'c';
                 if (kd == 'p' && !probe_ok)
                     kd = 'i';
+                if (kd == 's' && big_ok && big_left > 0 && rng.chance(1, 4))
+                {
+                    kd = 'B';
+                    --big_left;
+                }
                 if (!s.empty())
                     s += ',';
                 s += kd;
@@ -1368,6 +1423,12 @@ public:
             {
                 if (!s.sinks.empty())
                     return flag("C05/spurious", sig, s.op, "sink reached without the formatter");
+                // Thresholds changed while the statement was alive, so either verdict is accepted -
+                // but it must be one verdict: a callable that was evaluated belongs to a record that
+                // is then emitted ("rejected => never called", "emitted => called once when streamed").
+                if (!s.calls.empty() && !callable_threw)
+                    return flag("C10/callable-called-when-rejected", sig + " threshold-changed-in-flight", s.op,
+                                "callables were evaluated but the record was dropped afterwards");
                 // not delivered: callables at most once each
                 std::map<int, int> cnt;
                 for (auto& c : s.calls)
@@ -1377,6 +1438,8 @@ public:
             }
             p_emitted++;
             const Stmt::Fmt& f = s.fmts[0];
+            if (f.msg.size() > 4096)
+                p_big_record++;
             // (c) callables: exactly once each, at the point where they are streamed
             {
                 std::map<int, int> cnt;
